@@ -181,6 +181,10 @@ func (pp c08) Run(c *core.Ctx, idx int) {
 		// module name and prefix differ: a path segment is qualified with the module NAME
 		o.Prefix = "pm"
 	}
+	if idx%4 == 2 {
+		// a module name that is not a URL scheme
+		o.ModName = "m_x.1"
+	}
 	o.Sub = idx%5 == 1 // some top-level nodes written in a submodule: "m:name" qualifies them like the module's own
 	o.KeyTypes = []string{"string", "int32", "int64", "uint8", "uint32", "enumeration", "boolean", "int8", "uint16", "uint64", "int16", "identityref", "decimal64"}
 	// the data of every 8th case (and of four fixed ones) lives in Go maps, slices and structs behind nodeutil.Reflect / nodeutil.Node
@@ -550,6 +554,46 @@ func (pp c08) Run(c *core.Ctx, idx int) {
 						lvl = "top"
 					}
 					c.Violate("unknown-module/"+lvl+"/"+storeName, "Find(%q) = %v, %v; want a not-found error (no module zz-no-such-module)\n%s", path, sel, err, wit())
+				}
+			}
+		}
+		if r.Intn(3) == 0 && s.AugName == "" {
+			// module-qualified first segment together with request parameters
+			path := spell(s, p, 1) + "?depth=3"
+			c.Eval()
+			var sel *node.Selection
+			var err error
+			if !c.Guard("Find "+path, func() { sel, err = b.Root().Find(path) }) {
+				if err != nil || sel == nil || sel.Path.Meta != schemaAt(s, p).Meta {
+					c.Violate("qualified-with-parameters/"+storeName, "Find(%q) = %v, %v; without the parameters the node is found\n%s", path, sel, err, wit())
+				}
+			}
+		}
+		if r.Intn(4) == 0 {
+			// odd spellings of the path of a node that is there: an empty segment in front or in the middle, more key values than the
+			// list has keys. Whether they are errors or tolerated is not stated; what they never are is the path of ANOTHER node
+			good := spell(s, p, 0)
+			bads := []string{"/" + good}
+			if i := strings.Index(good, "/"); i > 0 {
+				bads = append(bads, good[:i]+"/"+good[i:])
+			}
+			if kind == "entry" {
+				bads = append(bads, good+",surplus")
+			}
+			for _, bad := range bads {
+				c.Eval()
+				var sel *node.Selection
+				var err error
+				if !c.Guard("Find malformed "+bad, func() { sel, err = b.Root().Find(bad) }) {
+					_ = err
+					surplus := strings.HasSuffix(bad, ",surplus")
+					if sel != nil && (surplus || sel.Path.Meta != schemaAt(s, p).Meta || pathChain(s, sel.Path, p) != "") {
+						cls := "empty-segment"
+						if surplus {
+							cls = "surplus-key-value"
+						}
+						c.Violate("malformed-path-selects/"+cls+"/"+storeName, "Find(%q) selects %s, which is not what the path spells (an error, no selection, or the node %q itself would do)\n%s", bad, sel.Path.String(), good, wit())
+					}
 				}
 			}
 		}
